@@ -350,7 +350,7 @@ def cases(rng, tier):
     for d in exhaustive_descs(): out.append((W(d), "exhaustive-desc"))
     for t in exhaustive_lines(): out.append((T("M", t), "exhaustive-lines"))
     # well-formed stream
-    n = 1300 if not thorough else 26000
+    n = 3000 if not thorough else 20000
     bases = []
     for i in range(n):
         r = rng.random()
@@ -364,7 +364,7 @@ def cases(rng, tier):
         if k == 0: out.append((T("C", serialize(d), d, flags(rng)), "wf-canonical-text"))
         elif k in (1, 2): out.append((T("V", variant_text(rng, d), d, flags(rng)), "wf-variant"))
         else: out.append((T("X", variant_text(rng, d, exotic=True), d, flags(rng)), "wf-exotic-variant"))
-    for _ in range(150 if not thorough else 3000):
+    for _ in range(300 if not thorough else 3000):
         out.append((W(nonwf_desc(rng), flags(rng)), "nonwf-desc"))
     # BDD automata on the process-wide default alphabet: a small fixed pool of symbol names
     for _ in range(60 if not thorough else 600):
@@ -380,7 +380,7 @@ def cases(rng, tier):
         out.append((T("O", serialize(d2), d2, 0), "o1-probe"))
     # malformed stream
     for t in long_texts(rng, tier): out.append((T("M", t), "long"))
-    n = 3500 if not thorough else 70000
+    n = 9000 if not thorough else 60000
     for i in range(n):
         d = bases[rng.randrange(len(bases))]
         t, fam = malformed(rng, d)
